@@ -1139,10 +1139,143 @@ Proof.
   split; [rewrite with_off_start; lia|].
   split; [rewrite with_off_stop; lia|].
   split; [rewrite with_off_rev; unfold is_reversed; exact Hdir|].
-  - intros f. unfold denoted. unfold with_off at 1. cbn [offset].
-    assert (E : flat_map (residue sg ao) (filter (in_seg ao (parent_stop v)) (positions (f_spans f))) =
-                flat_map (residue p (offset v)) (filter (in_seg ao (parent_stop v)) (positions (f_spans f)))).
-    { apply flat_map_ext_in. intros x Hx. apply filter_In in Hx. destruct Hx as [_ Hx]. unfold in_seg in Hx.
-      unfold residue. rewrite Hsg. rewrite zget_gather_zr by lia. f_equal. lia. }
-    rewrite E. reflexivity.
+  intros f. unfold denoted. change (offset (with_off v' ao)) with ao.
+  assert (E : flat_map (residue sg ao) (filter (in_seg ao (parent_stop v)) (positions (f_spans f))) =
+              flat_map (residue p (offset v)) (filter (in_seg ao (parent_stop v)) (positions (f_spans f)))).
+  { apply flat_map_ext_in. intros x Hx. apply filter_In in Hx. destruct Hx as [_ Hx]. unfold in_seg in Hx.
+    unfold residue. rewrite Hsg. rewrite zget_gather_zr by lia. f_equal. lia. }
+  rewrite E. reflexivity.
+Qed.
+
+(** * histories of slices, reverse complements and copies *)
+
+(** the (view, parent) pair reads, at every absolute coordinate its parent
+    covers, the residue of the original parent [p0] (annotation offset [off0]) *)
+Definition hinv (p0 : list Z) (off0 : Z) (st : view * list Z) : Prop :=
+  let '(v, p) := st in
+  WF v /\ 0 <= offset v /\
+  (0 < vlen v -> Z.abs (step v) = 1 /\ zlen p = seq_len v /\
+     forall x, offset v <= x < offset v + zlen p -> residue p (offset v) x = residue p0 off0 x).
+
+Definition unit_hop (h : hop) : Prop := match h with HOp o => unit_op o | HCopy => True end.
+
+Lemma copy_empty v p hid s' : WF v -> 0 <= offset v -> vlen v = 0 ->
+  apply_op Fixed (mkS v p KDna hid) CopySliced = Ok s' ->
+  WF (sv s') /\ 0 <= offset (sv s') /\ vlen (sv s') = 0.
+Proof.
+  intros Hwf Hoff H0 H. cbn [apply_op sv parent] in H.
+  destruct (copy_sliced_any false v p Hwf (or_introl H0)) as (v' & Hr & Hwf' & Hz & Hval & _ & Hoff').
+  destruct (copy_sliced false v p) as [r sg]. cbn [fst snd] in *. subst r.
+  rewrite Hoff' in H. replace (0 =? 0) with true in H by reflexivity. rewrite andb_false_r in H.
+  injection H as <-. cbn [sv].
+  pose proof (seg_bounds v Hwf) as Hb. unfold seg_lo in Hb.
+  assert (Hvl : vlen v' = 0).
+  { rewrite <- (len_value_lemma v' sg Hwf' Hz), Hval, (value_empty v p Hwf H0). reflexivity. }
+  destruct (parent_start v =? 0) eqn:E.
+  - split; [assumption|]. split; [lia|assumption].
+  - split; [destruct Hwf' as (W1 & W2); unfold WF; cbn [start stop step seq_len]; split; assumption|].
+    split; [cbn [offset]; lia|]. unfold vlen in *. cbn [start stop step]. exact Hvl.
+Qed.
+
+Lemma hinv_step p0 off0 st h st' : hinv p0 off0 st -> unit_hop h ->
+  apply_hop (Ok st) h = Ok st' -> hinv p0 off0 st'.
+Proof.
+  destruct st as [v p]. intros (Hwf & Hoff & Hpos) Hu H. cbn [apply_hop bind] in H.
+  destruct h as [o|].
+  - (* slice / rc: same parent *)
+    destruct (apply_vop (Ok v) o) as [v'|e] eqn:E; [|discriminate]. cbn [bind] in H. injection H as <-.
+    assert (Hv : vinv p (offset v) v).
+    { split; [assumption|]. split; [assumption|]. intros Hl. destruct (Hpos Hl) as (A & B & _). tauto. }
+    assert (Hv' : vinv p (offset v) v').
+    { destruct o as [a b c|]; cbn [apply_vop bind] in E.
+      - apply (vinv_getitem p (offset v) v a b c v' Hv); [|exact E]. cbn in Hu. destruct Hu as [->| ->]; reflexivity.
+      - apply (vinv_getitem p (offset v) v None None (Some (-1)) v' Hv); [reflexivity|exact E]. }
+    destruct Hv' as (Hwf' & Hoff' & Hpos'). split; [assumption|]. split; [assumption|]. intros Hl'.
+    destruct (Hpos' Hl') as (A & B & C).
+    assert (Hl : 0 < vlen v).
+    { destruct o as [a b c|]; cbn [apply_vop bind] in E;
+        destruct (shape_getitem_slice _ _ _ _ _ _ Hwf E) as [_ Hz]; pose proof (vlen_nonneg v);
+        destruct (Z.eq_dec (vlen v) 0) as [E0|E0]; try lia; specialize (Hz E0); lia. }
+    destruct (Hpos Hl) as (_ & _ & Hres). split; [assumption|]. split; [assumption|].
+    rewrite C. exact Hres.
+  - (* copy *)
+    destruct (apply_op Fixed (mkS v p KDna true) CopySliced) as [s'|e] eqn:E; [|discriminate].
+    injection H as <-.
+    pose proof (vlen_nonneg v) as Hnn. destruct (Z.eq_dec (vlen v) 0) as [E0|E0].
+    + destruct (copy_empty v p true s' Hwf Hoff E0 E) as (A & B & C).
+      split; [assumption|]. split; [assumption|]. lia.
+    + assert (Hl : 0 < vlen v) by lia. destruct (Hpos Hl) as (Habs & Hp & Hres).
+      assert (Hc : contig v) by (split; [assumption|split; assumption]).
+      pose proof E as E'. cbn [apply_op sv parent] in E'.
+      pose proof (copy_sliced_lemma false v p Hwf Hp) as Hcs.
+      destruct (copy_sliced false v p) as [r sg] eqn:Ecs.
+      destruct Hcs as (v' & -> & Hwf' & Hz & Hval & Hlen' & Hoff' & Hb).
+      destruct (Hb Hl) as (Hlo & Hhi & Hdir).
+      rewrite Hoff' in E'. replace (0 =? 0) with true in E' by reflexivity. rewrite andb_false_r in E'.
+      injection E' as <-. cbn [sv parent].
+      destruct (copy_preserves_lemma v p true _ Hc Hl Hp E) as (Hc2 & Hvl2 & Hz2 & Hps & Hpe & _ & _).
+      set (ao := parent_start v) in *.
+      set (v2 := if ao =? 0 then v' else _) in *.
+      assert (Hv2 : v2 = with_off v' ao).
+      { subst v2. destruct (ao =? 0) eqn:Eao; [|reflexivity].
+        destruct v'; cbn in *. unfold with_off; cbn. f_equal. lia. }
+      cbn [sv parent] in Hc2, Hvl2, Hz2.
+      destruct Hc2 as (W & A & O). split; [assumption|]. split; [assumption|]. intros _.
+      split; [assumption|]. split; [assumption|].
+      pose proof (seg_bounds v Hwf) as Hb0.
+      assert (Hsg : sg = gather p (zr (seg_lo v) (seg_hi v))).
+      { unfold copy_sliced in Ecs. injection Ecs as _ Hs. rewrite <- Hs, rich_seq_eq. apply seg_is_gather; lia. }
+      assert (Hzs : zlen sg = seg_hi v - seg_lo v).
+      { rewrite Hsg, <- seg_is_gather by lia. apply zlen_seg; lia. }
+      assert (Hoff2 : offset v2 = ao) by (rewrite Hv2; reflexivity).
+      rewrite Hoff2, Hzs. intros x Hx.
+      assert (Hao : ao = offset v + seg_lo v) by (unfold ao, seg_lo; lia).
+      rewrite <- (Hres x) by lia.
+      unfold residue. rewrite Hsg, zget_gather_zr by lia. f_equal. lia.
+Qed.
+
+Lemma fold_hop_err e ops : fold_left apply_hop ops (Err e) = Err e.
+Proof. induction ops as [|o ops IH]; [reflexivity|]. exact IH. Qed.
+
+Lemma hinv_history p0 off0 ops : forall st st', hinv p0 off0 st -> Forall unit_hop ops ->
+  fold_left apply_hop ops (Ok st) = Ok st' -> hinv p0 off0 st'.
+Proof.
+  induction ops as [|o ops IH]; intros st st' Hst Hops H.
+  - cbn in H. injection H as <-. exact Hst.
+  - inversion Hops as [|x y Ho Hr]; subst. cbn [fold_left] in H.
+    destruct (apply_hop (Ok st) o) as [w|e] eqn:E; [|rewrite fold_hop_err in H; discriminate].
+    exact (IH w st' (hinv_step p0 off0 st o w Hst Ho E) Hr H).
+Qed.
+
+Lemma denoted_same_residues p off p0 off0 lo hi f :
+  (forall x, lo <= x < hi -> residue p off x = residue p0 off0 x) ->
+  denoted p off lo hi f = denoted p0 off0 lo hi f.
+Proof.
+  intros H. unfold denoted.
+  assert (E : flat_map (residue p off) (filter (in_seg lo hi) (positions (f_spans f))) =
+              flat_map (residue p0 off0) (filter (in_seg lo hi) (positions (f_spans f)))).
+  { apply flat_map_ext_in. intros x Hx. apply filter_In in Hx. destruct Hx as [_ Hx]. unfold in_seg in Hx.
+    apply H. lia. }
+  rewrite E. reflexivity.
+Qed.
+
+(** HEADLINE over histories with copies *)
+Lemma history_with_copies_lemma fx p0 off0 ops v0 v p f fv :
+  0 <= off0 -> mk_view (zlen p0) None None None off0 = Ok v0 ->
+  Forall unit_hop ops -> fold_left apply_hop ops (Ok (v0, p0)) = Ok (v, p) -> 0 < vlen v ->
+  spans_ok 0 (f_spans f) -> feature_on_view fx v f = Ok fv ->
+  fv_minus fv = xorb (f_minus f) (is_reversed v) /\
+  get_slice_str v p fv = Ok (denoted p0 off0 (parent_start v) (parent_stop v) f).
+Proof.
+  intros Hoff H0 Hops Hfold Hlen Hok Hfv.
+  assert (Hinit : hinv p0 off0 (v0, p0)).
+  { destruct (vinv_init p0 off0 Hoff v0 H0) as (W & O & P). split; [assumption|]. split; [assumption|].
+    intros Hl. destruct (P Hl) as (A & B & C). split; [assumption|]. split; [assumption|].
+    intros x _. rewrite C. reflexivity. }
+  pose proof (hinv_history p0 off0 ops (v0, p0) (v, p) Hinit Hops Hfold) as (Hwf & Ho & Hpos).
+  destruct (Hpos Hlen) as (Habs & Hp & Hres).
+  assert (Hc : contig v) by (split; [assumption|split; assumption]).
+  destruct (feature_slice_lemma fx v p f fv Hc Hlen Hp Hok Hfv) as (H1 & H2). split; [exact H1|].
+  rewrite H2. f_equal. apply denoted_same_residues. intros x Hx. apply Hres.
+  pose proof (seg_bounds v Hwf) as Hb. unfold seg_lo, seg_hi in Hb. lia.
 Qed.
